@@ -59,6 +59,17 @@ CLAIMED["C04"] = dict(
          "taken from the pinned tree (no independent RFC copy in the sandbox).",
     technique="static analysis: term-template matching and loop-summary comparison against RFC reference code over rustc MIR")
 
+CLAIMED["C12"] = dict(
+    cat="proof", ref="DESIGN.md §3 C12",
+    text="Every memory-touching operation in the crate's unsafe code (raw pointer add/deref, unaligned reads/writes, vector loads/stores, "
+         "get_unchecked, from_raw_parts) is an obligation (object, byte offset, width) discharged by abstract interpretation with "
+         "symbolic intervals over len = 64q + r for all 64 residues r; the slab's paired borrow is shown in-bounds and disjoint for "
+         "dest<src and dest>src and refused for dest==src; the struct invariants and call-site guards the bounds rest on are checked "
+         "structurally; the unsafe inventory is closed (a new unsafe site without obligations is reported).",
+    note="Only the x86_64 instantiation is analysed (no other target std is installed: NEON / 32-bit x86 kernels are out of reach). "
+         "Alignment/null checks and arithmetic overflow are not part of this property's obligations.",
+    technique="static analysis: abstract interpretation (symbolic intervals, residue split) over rustc MIR + structural encapsulation rules")
+
 NOT_APPLICABLE = {
     "C03": "probability over random erasure patterns; no clause of it is visible in the shape of the code",
     "C06": "invertibility of 477 concrete matrices and plan-replay equality are run-time linear algebra; no sound structural proxy",
